@@ -82,6 +82,9 @@ def run(rep):
         if np.abs(w[-1]).max() > 0:
             rep.nontrivial += 1
         tm = TrajectoryMetrics(traj)
+        if b % 2:
+            # the order in which the (memoised) metrics are asked for must not matter
+            tm.vibration_amplitude(), tm.attempt_frequency(), tm.speed()
         temp = traj.metadata['temperature']
         total_time = T * traj.time_step
         vol = math.sqrt(e['det'])
